@@ -119,13 +119,12 @@ func main() {
 			p = genPipeline(run.Rng, 2+run.Rng.Intn(3))
 		case k%4 == 2:
 			p = genPrivate(run.Rng, 1+run.Rng.Intn(4), true)
+		case k%4 == 1:
+			p = genPrivate(run.Rng, 2+run.Rng.Intn(3), true)
 		default:
 			p = genPrivate(run.Rng, 2+run.Rng.Intn(3), false)
 		}
 		it := &item{Stream: "A", Name: "model-" + p.Family, Model: p, Ref: p.Go(), Goroutines: len(p.Acts)}
-		if p.Selects > 0 && len(p.Acts) >= 2 {
-			it.Class = "select-multi"
-		}
 		items = append(items, it)
 	}
 	for round := 0; round < nBrounds; round++ {
@@ -212,7 +211,9 @@ func main() {
 			if !all || g != ref {
 				run.Disagree(common.Disagreement{Kind: "spec-vs-ref", Input: inputOf(it, nil), Spec: f["g"], Ref: refOut(it), Note: "model with the empty closure-write table vs compiled Go"})
 			}
-			if f["d"] == "1" || len(it.Model.Acts) == 1 {
+			if f["d"] != "1" {
+				run.Errorf("model: a statement kind shares its operand variables (closure-write table not empty): %s", it.Lean)
+			} else {
 				// the theorems, observed: y = g, and for the private family every trace is the solo trace
 				if f["y"] != f["g"] {
 					run.Errorf("model: y differs from g inside the proved domain: %s", it.Lean)
@@ -407,12 +408,8 @@ func judge(run *common.Run, j *job, refOut func(*item) string) {
 			continue
 		}
 		run.Hit("race:report-in-interp")
-		// outside the domain the report is one more observation of the class's defect; for select-multi only
-		// when the racing accesses are those of _select
+		// outside the domain the report is one more observation of the class's defect
 		finding := it.Class
-		if it.Class == "select-multi" && !r.Select {
-			finding = ""
-		}
 		run.Disagree(common.Disagreement{Kind: "impl-vs-ref", Input: inputOf(it, j), Impl: "DATA RACE " + r.Top, Ref: "no data race in the interpreter's own state",
 			Finding: finding, Note: trunc(r.Text, 1800)})
 	}
